@@ -211,6 +211,31 @@ def shard(binpath, seed, sh, n):
     return res
 
 
+def after_refused_canonicalisation(binpath, res, seed, n):
+    """history in one executor process (one thread): a canonicalisation that the library refuses part-way through a document
+    (a non-integer number inside nested containers), then a statement / predicate: its canonical form is its own"""
+    rng = common.rng_for(seed, PROP, 444)
+    refused = ['{"measurements":[1,2,1.5]}', '[[["x",{"a":0.25}]]]', '{"a":{"b":{"c":[true,null,"s",1e-3]}}}', '{"k":"v","z":[1e300]}']
+    docs = [c for c in gen_cases(rng, n * 3) if not c["meta"]["cls"].startswith(("mutated", "free_form"))][:n]
+    batch = []
+    for c in docs:
+        batch.append({"op": "canon", "texts": [rng.choice(refused)], "meta": {"kind": "reject"}})
+        batch.append(c)
+    obs = common.run_batch(binpath, batch, keys=False)
+    for c, o in zip(batch, obs):
+        if c["op"] == "canon":
+            if "res" not in o:
+                res.inconclusive.append(f"executor failure: {str(o)[:200]}")
+            elif "ok" in o["res"][0]:
+                res.classes["after_refused_canonicalisation:set_up_was_accepted"] += 1
+            else:
+                res.classes["after_refused_canonicalisation:set_up_refused"] += 1
+            continue
+        r = judge(c, o, res)
+        if r is not None:
+            res.note(["after_refused", c["text"]], r == "accepted", cls=["after_refused_canonicalisation:" + r])
+
+
 def from_meta(binpath, res, seed, n):
     rng = common.rng_for(seed, PROP, 333)
     cases = []
@@ -338,6 +363,7 @@ def main(ctx):
     for p in common.pmap(shard, [(ctx.bin, ctx.seed, s, n) for s in range(common.NPROC)]):
         res.merge(p)
     from_meta(ctx.bin, res, ctx.seed, 400 if not ctx.thorough else 30000)
+    after_refused_canonicalisation(ctx.bin, res, ctx.seed, 200 if not ctx.thorough else 5000)
     exhaustive_optionals(ctx.bin, res)
     res.extras["exhaustive_subspaces"] = ["every subset of optional members at each struct level of SLSA v0.1/v0.2 predicates, "
                                           "each also inside a v0.1 statement under every declared predicate type"]
@@ -348,7 +374,7 @@ def main(ctx):
              "timestamps with offsets and fractions, hostile strings) plus schema-level mutations (extra member, dropped member, "
              "wrong type, malformed timestamp, other _type); non-trivial = accepted, or a mismatch/mutation case; distinct by text",
         assumptions=["the generator's wire schemas transliterate the structs' serde attributes", "the hook's per-version parsers are the library's own"],
-        required=["statement:accepted", "predicate:accepted", "statement:rejected", "predicate:rejected", "v01:mismatch", "naive",
+        required=["after_refused_canonicalisation:accepted", "after_refused_canonicalisation:set_up_refused", "statement:accepted", "predicate:accepted", "statement:rejected", "predicate:rejected", "v01:mismatch", "naive",
                   "pred:provenancev0.1", "pred:provenancev0.2", "pred:Linkv0.2", "with_timestamp:accepted", "timestamp_roundtrip_exact",
                   "from_meta:naive", "from_meta:v01", "mutated:extra_field", "optional_subset:accepted"],
         min_evals=3000)
